@@ -352,6 +352,23 @@ impl ConnectReasonCode {
 //@end
 }
 
+// Variable Byte Integer at the head of a byte string (OASIS 1.5.5): how many bytes it takes - at most four, the last one without the continuation bit
+pub open spec fn vbi_len(s: Seq<u8>) -> Option<int> {
+    if s.len() >= 1 && s[0] < 128 { Some(1int) }
+    else if s.len() >= 2 && s[0] >= 128 && s[1] < 128 { Some(2int) }
+    else if s.len() >= 3 && s[0] >= 128 && s[1] >= 128 && s[2] < 128 { Some(3int) }
+    else if s.len() >= 4 && s[0] >= 128 && s[1] >= 128 && s[2] >= 128 && s[3] < 128 { Some(4int) }
+    else { None }
+}
+pub proof fn lemma_vbi_len_char(s: Seq<u8>)
+    ensures
+        forall|n: int| 1 <= n <= 4 && n <= s.len() && s[n - 1] < 128 && (forall|j: int| 0 <= j < n - 1 ==> s[j] >= 128) ==> vbi_len(s) == Some(n),
+        (forall|j: int| 0 <= j < 4 && j < s.len() ==> s[j] >= 128) ==> vbi_len(s) is None,
+{
+    assert forall|n: int| 1 <= n <= 4 && n <= s.len() && s[n - 1] < 128 && (forall|j: int| 0 <= j < n - 1 ==> s[j] >= 128) implies vbi_len(s) == Some(n) by {
+        if n >= 2 { assert(s[0] >= 128); } if n >= 3 { assert(s[1] >= 128); } if n >= 4 { assert(s[2] >= 128); }
+    }
+}
 // ---- MQTT 5 property sections, written from OASIS MQTT 5.0 section 2.2.2.2 (identifier -> data type); nothing here is repository code
 pub enum PropType { Byte, TwoByte, FourByte, Vbi, Str, Bin, StrPair, Unknown }
 pub open spec fn prop_type(id: u8) -> PropType {
@@ -368,6 +385,7 @@ pub open spec fn prop_type(id: u8) -> PropType {
 pub struct PropBag {
     pub bytes: Map<u8, u8>, pub u16s: Map<u8, u16>, pub u32s: Map<u8, u32>,
     pub strs: Map<u8, Seq<char>>, pub bins: Map<u8, Seq<u8>>, pub users: Seq<(Seq<char>, Seq<char>)>,
+    pub subids: Seq<u32>,      // Subscription Identifier (0x0B) may occur several times in a PUBLISH
 }
 // byte-valued properties are 0/1 flags, except Maximum QoS (0x24): the standard allows 0 and 1 there, this client also accepts 2
 // (over-acceptance noted in DESIGN.md 4, not a C03 violation)
@@ -395,6 +413,11 @@ pub open spec fn parse_props(b: Seq<u8>, allowed: Set<u8>, bag: PropBag) -> Opti
                     let rest1 = rest.subrange(2 + be16(rest), rest.len() as int);
                     if lp_string_ok(rest) && lp_string_ok(rest1)
                         { parse_props(rest1.subrange(2 + be16(rest1), rest1.len() as int), allowed, PropBag { users: bag.users.push((lp_string_text(rest), lp_string_text(rest1))), ..bag }) } else { None }
+                },
+                // (a Subscription Identifier of 0 is a protocol error by the standard; this client accepts it - noted over-acceptance)
+                PropType::Vbi => match vbi_len(rest) {
+                    Some(n) => parse_props(rest.subrange(n, rest.len() as int), allowed, PropBag { subids: bag.subids.push(vli_val(rest, n as nat) as u32), ..bag }),
+                    None => None,
                 },
                 _ => None,
             }
@@ -427,10 +450,11 @@ pub open spec fn connack_bag(p: ConnackPacket) -> PropBag {
                     0x1Cu8, text(p.server_reference)), 0x15u8, text(p.authentication_method)),
         bins: put(Map::<u8, Seq<u8>>::empty(), 0x16u8, blob(p.authentication_data)),
         users: user_seq(p.user_properties),
+        subids: Seq::empty(),
     }
 }
 pub open spec fn bag_eq(a: PropBag, b: PropBag) -> bool {
-    a.bytes =~= b.bytes && a.u16s =~= b.u16s && a.u32s =~= b.u32s && a.strs =~= b.strs && a.bins =~= b.bins && a.users =~= b.users
+    a.bytes =~= b.bytes && a.u16s =~= b.u16s && a.u32s =~= b.u32s && a.strs =~= b.strs && a.bins =~= b.bins && a.users =~= b.users && a.subids =~= b.subids
 }
 
 //@fn gneiss-mqtt/src/mqtt/connack.rs decode_connack_properties props=C03,C11
@@ -493,25 +517,8 @@ pub open spec fn connack311_reason(v: u8) -> Option<ConnectReasonCode> {
     ensures match connack311_reason(value) { Some(c) => r == Ok::<ConnectReasonCode, GneissError>(c), None => r is Err },
 //@end
 
-// Variable Byte Integer at the head of a byte string (OASIS 1.5.5): how many bytes it takes - at most four, the last one without the continuation bit
-pub open spec fn vbi_len(s: Seq<u8>) -> Option<int> {
-    if s.len() >= 1 && s[0] < 128 { Some(1int) }
-    else if s.len() >= 2 && s[0] >= 128 && s[1] < 128 { Some(2int) }
-    else if s.len() >= 3 && s[0] >= 128 && s[1] >= 128 && s[2] < 128 { Some(3int) }
-    else if s.len() >= 4 && s[0] >= 128 && s[1] >= 128 && s[2] >= 128 && s[3] < 128 { Some(4int) }
-    else { None }
-}
-pub proof fn lemma_vbi_len_char(s: Seq<u8>)
-    ensures
-        forall|n: int| 1 <= n <= 4 && n <= s.len() && s[n - 1] < 128 && (forall|j: int| 0 <= j < n - 1 ==> s[j] >= 128) ==> vbi_len(s) == Some(n),
-        (forall|j: int| 0 <= j < 4 && j < s.len() ==> s[j] >= 128) ==> vbi_len(s) is None,
-{
-    assert forall|n: int| 1 <= n <= 4 && n <= s.len() && s[n - 1] < 128 && (forall|j: int| 0 <= j < n - 1 ==> s[j] >= 128) implies vbi_len(s) == Some(n) by {
-        if n >= 2 { assert(s[0] >= 128); } if n >= 3 { assert(s[1] >= 128); } if n >= 4 { assert(s[2] >= 128); }
-    }
-}
 pub open spec fn empty_bag() -> PropBag {
-    PropBag { bytes: Map::empty(), u16s: Map::empty(), u32s: Map::empty(), strs: Map::empty(), bins: Map::empty(), users: Seq::empty() }
+    PropBag { bytes: Map::empty(), u16s: Map::empty(), u32s: Map::empty(), strs: Map::empty(), bins: Map::empty(), users: Seq::empty(), subids: Seq::empty() }
 }
 // MQTT 5 CONNACK (OASIS 3.2): fixed header 0x20; Connect Acknowledge Flags (only bit 0 may be set); reason code from table 3.1; a property
 // length that accounts for exactly the rest of the packet; the property section
@@ -566,6 +573,212 @@ pub open spec fn connack5_spec(first_byte: u8, body: Seq<u8>) -> Option<(bool, u
         !(first_byte == 0x20 && packet_body@.len() == 2 && packet_body@[0] <= 1 && connack311_reason(packet_body@[1]) is Some) ==> r is Err,
 //@@at bodystart
     proof { assert(2u8 << 4u8 == 32u8) by (bit_vector); assert(PACKET_TYPE_CONNACK == 2u8); }
+//@end
+
+// =====================================================================================================
+// PUBLISH decoding (C03): property section per OASIS 3.3.2.3, packet layout per 3.3
+// =====================================================================================================
+//@const gneiss-mqtt/src/mqtt/utils.rs PROPERTY_KEY_PAYLOAD_FORMAT_INDICATOR
+//@const gneiss-mqtt/src/mqtt/utils.rs PROPERTY_KEY_MESSAGE_EXPIRY_INTERVAL
+//@const gneiss-mqtt/src/mqtt/utils.rs PROPERTY_KEY_TOPIC_ALIAS
+//@const gneiss-mqtt/src/mqtt/utils.rs PROPERTY_KEY_RESPONSE_TOPIC
+//@const gneiss-mqtt/src/mqtt/utils.rs PROPERTY_KEY_CORRELATION_DATA
+//@const gneiss-mqtt/src/mqtt/utils.rs PROPERTY_KEY_SUBSCRIPTION_IDENTIFIER
+//@const gneiss-mqtt/src/mqtt/utils.rs PROPERTY_KEY_CONTENT_TYPE
+//@const gneiss-mqtt/src/mqtt/utils.rs PUBLISH_PACKET_FIXED_HEADER_DUPLICATE_FLAG
+//@const gneiss-mqtt/src/mqtt/utils.rs PUBLISH_PACKET_FIXED_HEADER_RETAIN_FLAG
+//@const gneiss-mqtt/src/mqtt/utils.rs QOS_MASK
+
+impl PayloadFormatIndicator {
+//@fn gneiss-mqtt/src/mqtt/mod.rs try_from props=C03 impl={TryFrom<u8> for PayloadFormatIndicator} as=try_from
+    ensures value <= 1 ==> (r matches Ok(f) && pfi_byte(Some(f)) == Some(value)), value > 1 ==> r is Err,
+//@end
+}
+pub open spec fn pfi_byte(o: Option<PayloadFormatIndicator>) -> Option<u8> {
+    match o { Some(PayloadFormatIndicator::Bytes) => Some(0u8), Some(PayloadFormatIndicator::Utf8) => Some(1u8), None => None }
+}
+pub open spec fn publish_ids() -> Set<u8> { set![0x01u8, 0x02u8, 0x23u8, 0x08u8, 0x09u8, 0x0Bu8, 0x26u8, 0x03u8] }
+pub open spec fn publish_bag(p: PublishPacket) -> PropBag {
+    PropBag {
+        bytes: put(Map::<u8, u8>::empty(), 0x01u8, pfi_byte(p.payload_format)),
+        u16s: put(Map::<u8, u16>::empty(), 0x23u8, p.topic_alias),
+        u32s: put(Map::<u8, u32>::empty(), 0x02u8, p.message_expiry_interval_seconds),
+        strs: put(put(Map::<u8, Seq<char>>::empty(), 0x08u8, text(p.response_topic)), 0x03u8, text(p.content_type)),
+        bins: put(Map::<u8, Seq<u8>>::empty(), 0x09u8, blob(p.correlation_data)),
+        users: user_seq(p.user_properties),
+        subids: match p.subscription_identifiers { Some(v) => v@, None => Seq::empty() },
+    }
+}
+// the fields of a PUBLISH that are not properties
+pub open spec fn publish_header_same(a: PublishPacket, b: PublishPacket) -> bool {
+    a.packet_id == b.packet_id && a.topic@ == b.topic@ && a.qos == b.qos && a.duplicate == b.duplicate && a.retain == b.retain && blob(a.payload) == blob(b.payload)
+}
+
+//@fn gneiss-mqtt/src/mqtt/publish.rs decode_publish_properties props=C03,C11
+    ensures
+        publish_header_same(*old(packet), *final(packet)),
+        match parse_props(property_bytes@, publish_ids(), publish_bag(*old(packet))) {
+            Some(bag) => r is Ok && bag_eq(publish_bag(*final(packet)), bag),
+            None => r is Err,
+        },
+//@@loop 0
+        invariant
+            publish_header_same(*old(packet), *packet),
+            parse_props(property_bytes@, publish_ids(), publish_bag(*old(packet))) == parse_props(mutable_property_bytes@, publish_ids(), publish_bag(*packet)),
+        decreases mutable_property_bytes@.len(),
+//@@bodyend_of_loop 0
+            proof {
+                let rest = b0.subrange(1, b0.len() as int);
+                let bag0 = publish_bag(pk0); let bag1 = publish_bag(*packet); let id = b0[0];
+                assert(rest_view == rest);
+                if id == 0x01u8 { let x = PropBag { bytes: bag0.bytes.insert(id, rest[0]), ..bag0 }; assert(bag_eq(bag1, x)); assert(bag1 == x); assert(mutable_property_bytes@ =~= rest.subrange(1, rest.len() as int)); }
+                if id == 0x02u8 { let x = PropBag { u32s: bag0.u32s.insert(id, be32(rest) as u32), ..bag0 }; assert(bag_eq(bag1, x)); assert(bag1 == x); assert(mutable_property_bytes@ =~= rest.subrange(4, rest.len() as int)); }
+                if id == 0x23u8 { let x = PropBag { u16s: bag0.u16s.insert(id, be16(rest) as u16), ..bag0 }; assert(bag_eq(bag1, x)); assert(bag1 == x); assert(mutable_property_bytes@ =~= rest.subrange(2, rest.len() as int)); }
+                if id == 0x08u8 || id == 0x03u8 { let x = PropBag { strs: bag0.strs.insert(id, lp_string_text(rest)), ..bag0 }; assert(bag_eq(bag1, x)); assert(bag1 == x); assert(mutable_property_bytes@ =~= rest.subrange(2 + be16(rest), rest.len() as int)); }
+                if id == 0x09u8 { let x = PropBag { bins: bag0.bins.insert(id, rest.subrange(2, 2 + be16(rest))), ..bag0 }; assert(bag_eq(bag1, x)); assert(bag1 == x); assert(mutable_property_bytes@ =~= rest.subrange(2 + be16(rest), rest.len() as int)); }
+                if id == 0x26u8 {
+                    let rest1 = rest.subrange(2 + be16(rest), rest.len() as int);
+                    let x = PropBag { users: bag0.users.push((lp_string_text(rest), lp_string_text(rest1))), ..bag0 };
+                    assert(bag1.users =~= x.users); assert(bag_eq(bag1, x)); assert(bag1 == x);
+                    assert(mutable_property_bytes@ =~= rest1.subrange(2 + be16(rest1), rest1.len() as int));
+                }
+                if id == 0x0Bu8 {
+                    lemma_vbi_len_char(rest);
+                    let n = vbi_len(rest)->Some_0;
+                    let x = PropBag { subids: bag0.subids.push(vli_val(rest, n as nat) as u32), ..bag0 };
+                    assert(bag1.subids =~= x.subids); assert(bag_eq(bag1, x)); assert(bag1 == x);
+                    assert(mutable_property_bytes@ =~= rest.subrange(n, rest.len() as int));
+                }
+            }
+//@@at before "let property_key = mutable_property_bytes[0];"
+        let ghost b0 = mutable_property_bytes@;
+        let ghost pk0 = *packet;
+//@@at after "mutable_property_bytes = &mutable_property_bytes[1..];"
+        let ghost rest_view = mutable_property_bytes@;
+        proof { lemma_vbi_len_char(rest_view); }
+//@end
+
+// std docs: slice::to_vec copies the slice into a new Vec (used on u8 only: Clone of u8 is a copy)
+pub assume_specification<T: Clone> [<[T]>::to_vec] (s: &[T]) -> (r: Vec<T>)
+    ensures r@.len() == s@.len(), (forall|i: int| 0 <= i < s@.len() ==> vstd::pervasive::cloned(s@[i], #[trigger] r@[i]));
+
+// what a PUBLISH says (OASIS 3.3): flags of the fixed header, topic name, packet identifier (QoS > 0 only), properties, payload
+pub struct PubView { pub dup: bool, pub qos: u8, pub retain: bool, pub topic: Seq<char>, pub packet_id: int, pub bag: PropBag, pub payload: Seq<u8> }
+pub open spec fn publish_spec(first_byte: u8, body: Seq<u8>, v5: bool) -> Option<PubView> {
+    let qos = (first_byte >> 1u8) & 3u8;
+    if qos == 3 || !lp_string_ok(body) { None } else {
+        let r1 = body.subrange(2 + be16(body), body.len() as int);
+        if qos > 0 && r1.len() < 2 { None } else {
+            let pid = if qos > 0 { be16(r1) } else { 0int };
+            let r2 = if qos > 0 { r1.subrange(2, r1.len() as int) } else { r1 };
+            let head = PubView { dup: (first_byte & 8u8) != 0, qos, retain: (first_byte & 1u8) != 0, topic: lp_string_text(body), packet_id: pid, bag: empty_bag(), payload: r2 };
+            if !v5 { Some(head) } else {
+                match vbi_len(r2) {
+                    None => None,
+                    Some(n) => {
+                        let r3 = r2.subrange(n, r2.len() as int);
+                        let plen = vli_val(r2, n as nat) as int;
+                        if plen > r3.len() { None } else {
+                            match parse_props(r3.subrange(0, plen), publish_ids(), empty_bag()) {
+                                Some(bag) => Some(PubView { bag, payload: r3.subrange(plen, r3.len() as int), ..head }),
+                                None => None,
+                            }
+                        }
+                    }
+                }
+            }
+        }
+    }
+}
+pub open spec fn publish_matches(p: PublishPacket, v: PubView) -> bool {
+    &&& p.duplicate == v.dup && p.retain == v.retain && qos_byte(Some(p.qos)) == Some(v.qos)
+    &&& p.topic@ == v.topic && p.packet_id as int == v.packet_id
+    &&& bag_eq(publish_bag(p), v.bag)
+    // an empty payload is reported as "no payload"
+    &&& blob(p.payload) == (if v.payload.len() == 0 { None::<Seq<u8>> } else { Some(v.payload) })
+}
+
+//@fn gneiss-mqtt/src/mqtt/publish.rs decode_publish_packet5 props=C03,C11
+//@@rewrite "box_packet.as_mut()" => "&mut *box_packet"
+    ensures
+        match publish_spec(first_byte, packet_body@, true) {
+            Some(v) => r matches Ok(b) && (*b matches MqttPacket::Publish(p) && publish_matches(p, v)),
+            None => r is Err,
+        },
+//@@at bodystart
+    proof {
+        assert(((first_byte >> 1u8) & 3u8) <= 3u8) by (bit_vector);
+        assert(QOS_MASK == 3u8 && PUBLISH_PACKET_FIXED_HEADER_DUPLICATE_FLAG == 8u8 && PUBLISH_PACKET_FIXED_HEADER_RETAIN_FLAG == 1u8);
+    }
+//@@at before "packet.qos = QualityOfService::try_from((first_byte >> 1) & QOS_MASK)?;"
+        let ghost p_init = *packet;
+        proof { assert(bag_eq(publish_bag(p_init), empty_bag())); }
+//@@at before "mutable_body = decode_length_prefixed_string(mutable_body, &mut packet.topic)?;"
+        let ghost qosb = (first_byte >> 1u8) & 3u8;
+        proof { assert(qos_byte(Some(packet.qos)) == Some(qosb)); }
+//@@at after "mutable_body = decode_length_prefixed_string(mutable_body, &mut packet.topic)?;"
+        let ghost r1 = mutable_body@;
+        proof { assert(r1 =~= packet_body@.subrange(2 + be16(packet_body@), packet_body@.len() as int)); }
+//@@at before "mutable_body = decode_vli_into_mutable(mutable_body, &mut properties_length)?;"
+        let ghost r2 = mutable_body@;
+        proof {
+            assert(r2 =~= (if qosb > 0 { r1.subrange(2, r1.len() as int) } else { r1 }));
+            lemma_vbi_len_char(r2);
+            assert(publish_bag(*packet) == empty_bag()) by { assert(bag_eq(publish_bag(*packet), empty_bag())); }
+        }
+//@@at after "mutable_body = decode_vli_into_mutable(mutable_body, &mut properties_length)?;"
+        let ghost r3 = mutable_body@;
+        proof {
+            let n = vbi_len(r2)->Some_0;
+            assert(vbi_len(r2) is Some);
+            assert(r3 =~= r2.subrange(n, r2.len() as int));
+            assert(properties_length == vli_val(r2, n as nat));
+        }
+//@@at after "let payload_bytes = &mutable_body[properties_length..];"
+        proof {
+            assert(properties_bytes@ =~= r3.subrange(0, properties_length as int));
+            assert(payload_bytes@ =~= r3.subrange(properties_length as int, r3.len() as int));
+        }
+//@@at before "return Ok(box_packet);"
+        proof {
+            let v = publish_spec(first_byte, packet_body@, true)->Some_0;
+            assert(publish_spec(first_byte, packet_body@, true) is Some);
+            if payload_bytes@.len() > 0 { assert(packet.payload->Some_0@ =~= payload_bytes@); }
+            assert(publish_matches(*packet, v));
+        }
+//@end
+
+//@fn gneiss-mqtt/src/mqtt/publish.rs decode_publish_packet311 props=C03,C11
+//@@rewrite "box_packet.as_mut()" => "&mut *box_packet"
+    ensures
+        match publish_spec(first_byte, packet_body@, false) {
+            Some(v) => r matches Ok(b) && (*b matches MqttPacket::Publish(p) && publish_matches(p, v)),
+            None => r is Err,
+        },
+//@@at bodystart
+    proof {
+        assert(((first_byte >> 1u8) & 3u8) <= 3u8) by (bit_vector);
+        assert(QOS_MASK == 3u8 && PUBLISH_PACKET_FIXED_HEADER_DUPLICATE_FLAG == 8u8 && PUBLISH_PACKET_FIXED_HEADER_RETAIN_FLAG == 1u8);
+    }
+//@@at before "packet.qos = QualityOfService::try_from((first_byte >> 1) & QOS_MASK)?;"
+        let ghost p_init = *packet;
+        proof { assert(bag_eq(publish_bag(p_init), empty_bag())); }
+//@@at before "mutable_body = decode_length_prefixed_string(mutable_body, &mut packet.topic)?;"
+        let ghost qosb = (first_byte >> 1u8) & 3u8;
+        proof { assert(qos_byte(Some(packet.qos)) == Some(qosb)); }
+//@@at after "mutable_body = decode_length_prefixed_string(mutable_body, &mut packet.topic)?;"
+        let ghost r1 = mutable_body@;
+        proof { assert(r1 =~= packet_body@.subrange(2 + be16(packet_body@), packet_body@.len() as int)); }
+//@@at before "if !mutable_body.is_empty() {"
+        let ghost r2 = mutable_body@;
+        proof { assert(r2 =~= (if qosb > 0 { r1.subrange(2, r1.len() as int) } else { r1 })); }
+//@@at before "return Ok(box_packet);"
+        proof {
+            let v = publish_spec(first_byte, packet_body@, false)->Some_0;
+            assert(publish_spec(first_byte, packet_body@, false) is Some);
+            if r2.len() > 0 { assert(packet.payload->Some_0@ =~= r2); }
+            assert(publish_matches(*packet, v));
+        }
 //@end
 
 pub proof fn lemma_pow128(n: nat)
